@@ -5,6 +5,8 @@ import (
 	"encoding/binary"
 	"fmt"
 	"reflect"
+	"sync"
+	"time"
 
 	"github.com/free5gc/go-upf/internal/pfcp"
 	"github.com/free5gc/go-upf/internal/report"
@@ -94,6 +96,153 @@ func stripRx(sn *pfcp.VerifSnap, probe string) []pfcp.VerifRx {
 		}
 	}
 	return out
+}
+
+// c06Inject: the logical-time part of C06 injects "the retention timer of (addr,seq) fired" through the exported
+// NotifyTransTimeout. Whether this build honours such an event is probed once per process (a heartbeat is retained, its
+// expiry injected, the entry must be gone); if it does not - e.g. retention is driven by deadlines in a shared timer
+// queue - the injected expiries are left out of the sequences and release is decided by the real-timer cases alone.
+var c06Inject struct {
+	once  sync.Once
+	works bool
+}
+
+func c06InjectWorks() bool {
+	c06Inject.once.Do(func() {
+		tap := &vh.Tap{Inner: vh.NewModelDP()}
+		env, err := vh.StartEnv(tap, vh.EnvOpts{MaxRetrans: 3})
+		if err != nil {
+			return
+		}
+		defer env.Stop()
+		s, err := vh.NewSMF(9, env.UPF, 0)
+		if err != nil {
+			return
+		}
+		defer s.Close()
+		seq := s.NextSeq()
+		s.SendFrom(0, vh.BuildMsg(vh.MHeartbeatReq, nil, seq, vh.RecoveryTS(7)))
+		if env.Barrier() != nil {
+			return
+		}
+		addr := s.Addr(0).String()
+		if has, _ := rxHas(env.Srv.VerifSnapshot(), addr, seq); !has {
+			return
+		}
+		env.Srv.NotifyTransTimeout(pfcp.RX, fmt.Sprintf("%s-%d", addr, seq))
+		if env.Barrier() != nil {
+			return
+		}
+		has, _ := rxHas(env.Srv.VerifSnapshot(), addr, seq)
+		c06Inject.works = !has
+	})
+	return c06Inject.works
+}
+
+// c06Real: real retention timers (window 15..90 ms). Requests of answered and never-answered kinds are sent; three
+// windows and 400 ms later their bookkeeping must be gone (bounded progress) and a byte-identical copy is a new request.
+func c06Real(ci int, rng *vh.Rng, res *vh.Result) (finds [][2]string, abort string) {
+	add := func(sig, desc string) { finds = append(finds, [2]string{"C06:" + sig, desc}) }
+	rt := time.Duration(rng.Range(15, 30)) * time.Millisecond
+	mr := uint8(rng.Intn(3))
+	window := rt * time.Duration(mr+1)
+	dp := vh.NewModelDP()
+	tap := &vh.Tap{Inner: dp}
+	vh.TakeFatals()
+	env, err := vh.StartEnv(tap, vh.EnvOpts{MaxRetrans: mr, RetransTimeout: rt})
+	if err != nil {
+		return nil, "start: " + err.Error()
+	}
+	defer env.Stop()
+	A, err := vh.NewSMF(2, env.UPF, 1)
+	if err != nil {
+		return nil, "smf: " + err.Error()
+	}
+	defer A.Close()
+	C, err := vh.NewSMF(4, env.UPF, 0)
+	if err != nil {
+		return nil, "smf: " + err.Error()
+	}
+	defer C.Close()
+	seq := A.NextSeq()
+	A.SendFrom(0, vh.BuildMsg(vh.MAssocReq, nil, seq, vh.NodeIDv4(A.IP), vh.RecoveryTS(1)))
+	if A.WaitRsp(seq, 2e9) == nil {
+		return nil, "association unanswered"
+	}
+	type inst struct {
+		s        *vh.SMF
+		sock     int
+		seq      uint32
+		msg      []byte
+		kind     string
+		answered bool
+		rsp      []byte
+	}
+	var insts []*inst
+	zero := uint64(0)
+	unknown := uint64(0x7777)
+	n := rng.Range(3, 6)
+	for k := 0; k < n; k++ {
+		in := &inst{s: A, sock: rng.Intn(2)}
+		in.seq = uint32(0x5000 + k)
+		switch rng.Intn(5) {
+		case 0:
+			in.kind, in.answered = "heartbeat", true
+			in.msg = vh.BuildMsg(vh.MHeartbeatReq, nil, in.seq, vh.RecoveryTS(7))
+		case 1:
+			in.kind, in.answered = "establishment", true
+			in.msg = vh.BuildMsg(vh.MEstReq, &zero, in.seq, vh.NodeIDv4(A.IP), vh.FSEIDv4(uint64(0x70+k), A.IP), vh.Rule{Kind: "FAR", ID: 2, Action: 2}.CreateIE())
+		case 2:
+			in.kind, in.s, in.sock = "establishment-without-association", C, 0 // never answered
+			in.msg = vh.BuildMsg(vh.MEstReq, &zero, in.seq, vh.NodeIDv4(C.IP), vh.FSEIDv4(uint64(0x80+k), C.IP), vh.Rule{Kind: "FAR", ID: 2, Action: 2}.CreateIE())
+		case 3:
+			in.kind = "association-update" // not implemented by the UPF: never answered
+			in.msg = vh.BuildMsg(vh.MAssocUpdReq, nil, in.seq, vh.NodeIDv4(A.IP))
+		default:
+			in.kind, in.answered = "modification-of-an-unknown-session", true
+			in.msg = vh.BuildMsg(vh.MModReq, &unknown, in.seq, vh.Rule{Kind: "FAR", ID: 9, Action: 1}.CreateIE())
+		}
+		insts = append(insts, in)
+		in.s.SendFrom(in.sock, in.msg)
+		if in.answered {
+			if d := in.s.WaitRsp(in.seq, 2e9); d != nil {
+				in.rsp = d.B
+			}
+		}
+	}
+	time.Sleep(3*window + 400*time.Millisecond)
+	if err := env.Barrier(); err != nil {
+		return nil, "barrier: " + err.Error()
+	}
+	sn := env.Srv.VerifSnapshot()
+	for _, in := range insts {
+		in.s.Take()
+		addr := in.s.Addr(in.sock).String()
+		if has, _ := rxHas(sn, addr, in.seq); has {
+			add("entry-not-released-after-window", fmt.Sprintf("%s (%s,%d): its bookkeeping is still there %v after it was received (retention window %v)", in.kind, addr, in.seq, 3*window+400*time.Millisecond, window))
+		}
+		res.Count("real_window_requests", 1)
+	}
+	// a byte-identical copy after the window is a new request
+	for _, in := range insts {
+		if !in.answered || in.rsp == nil {
+			continue
+		}
+		nc := len(tap.Calls)
+		in.s.SendFrom(in.sock, in.msg)
+		d := in.s.WaitRsp(in.seq, 2e9)
+		switch {
+		case d == nil:
+			add("new-request-not-executed", fmt.Sprintf("%s (%d) sent again after the window was not answered", in.kind, in.seq))
+		case in.kind == "establishment" && (bytes.Equal(d.B, in.rsp) || len(tap.Calls) == nc):
+			add("mistaken-for-retransmission", fmt.Sprintf("establishment (%d) sent again after the window: %d data-plane calls, response identical to the first: %v", in.seq, len(tap.Calls)-nc, bytes.Equal(d.B, in.rsp)))
+		}
+		res.Count("copies_after_the_real_window", 1)
+	}
+	if fs := vh.TakeFatals(); len(fs) > 0 {
+		add(vh.FaultSig(fs[0]), "fatal: "+fs[0])
+	}
+	return finds, ""
 }
 
 // c06Run executes one event sequence against a fresh server and checks it
@@ -292,6 +441,10 @@ func c06Run(c *c06Case, res *vh.Result) (finds [][2]string, abort string, ncalls
 			}
 			continue
 		}
+		if ev.Expire && !c06InjectWorks() {
+			res.Count("injected_expiries_left_out(build_does_not_honour_them)", 1)
+			continue
+		}
 		if ev.Expire {
 			if txOut[fmt.Sprintf("%s-%d", addr, seq)] != nil {
 				res.Count("retention_expiries_on_an_id_shared_with_an_outstanding_report", 1)
@@ -385,11 +538,6 @@ func c06Run(c *c06Case, res *vh.Result) (finds [][2]string, abort string, ncalls
 		if !has {
 			add("no-bookkeeping", fmt.Sprintf("event %d: no retention entry for (%s,%d) after its first copy", ei, addr, seq))
 		}
-		for _, r := range post.Rx {
-			if r.Addr == addr && r.Seq == seq && !r.Timer {
-				add("retention-timer-not-armed", fmt.Sprintf("event %d: retention entry for (%s,%d) has no timer: it would never be released", ei, addr, seq))
-			}
-		}
 		// executed as new: always-answered kinds must be answered with their own, freshly built response
 		answered := in.Kind == "hb" || in.Kind == "assoc" || in.Kind == "mod" || in.Kind == "del" || in.Kind == "est" || in.Kind == "assocc" ||
 			(in.Kind == "estc" && cAssoc)
@@ -448,7 +596,25 @@ func runC06(res *vh.Result) {
 	}
 	nexh := sets * pow
 	nrand := vh.Tiered(2000, 50000)
-	res.Cases(nexh+nrand, func(i int, rng *vh.Rng) {
+	nreal := vh.Tiered(64, 1600)
+	res.Cases(nexh+nrand+nreal, func(i int, rng *vh.Rng) {
+		c06InjectWorks() // probed once per process, before the case's own server exists
+		if i >= nexh+nrand {
+			finds, abort := c06Real(i, rng, res)
+			if abort != "" {
+				res.Inconc(fmt.Sprintf("case %d: %s", i, abort))
+			}
+			seen := map[string]bool{}
+			for _, f := range finds {
+				if !seen[f[0]] {
+					seen[f[0]] = true
+					res.Violate(i, f[0], f[1], map[string]interface{}{"kind": "real retention timers"})
+				}
+			}
+			res.Eval(vh.Sig("real", i))
+			res.Count("real_window_cases", 1)
+			return
+		}
 		var c c06Case
 		if i < nexh {
 			set := i / pow
